@@ -1847,6 +1847,40 @@ inter_past(unsigned int rem, unsigned int inter)
 	return ((rem - 1U) / inter + 1U) * inter;
 }
 
+static bool
+pos_pick_p(const bitint383_t *poss, size_t i, size_t n)
+{
+/* check if the I-th (counting from 0) out of the N instants of a period
+ * is one that the set positions in POSS pick,
+ * negative positions count from the end of the period */
+	int pos;
+
+	if (LIKELY(!bi383_has_bits_p(poss))) {
+		/* they pick them all */
+		return true;
+	}
+	for (bitint_iter_t posi = 0UL;
+	     (pos = bi383_next(&posi, poss), posi);) {
+		if (pos > 0 && (size_t)pos == i + 1U ||
+		    pos < 0 && (size_t)-pos <= n && n - (size_t)-pos == i) {
+			return true;
+		}
+	}
+	return false;
+}
+
+static bool
+pos_pick_any_p(const bitint383_t *poss, size_t n)
+{
+/* check if the set positions in POSS pick any out of N instants at all */
+	for (size_t i = 0U; i < n; i++) {
+		if (pos_pick_p(poss, i, n)) {
+			return true;
+		}
+	}
+	return false;
+}
+
 size_t
 rrul_fill_Hly(echs_instant_t *restrict tgt, size_t nti, rrulsp_t rr)
 {
@@ -1950,6 +1984,11 @@ rrul_fill_Hly(echs_instant_t *restrict tgt, size_t nti, rrulsp_t rr)
 		/* because we're limiting results, allow all hours when
 		 * the H bitsets isn't set */
 		H_mask = ~H_mask;
+	}
+
+	if (UNLIKELY(!pos_pick_any_p(&rr->pos, (size_t)e.nM * e.nS))) {
+		/* none of the set positions exists in an hour's set */
+		goto fin;
 	}
 
 	/* the hours that H + k * inter visits repeat after at most 24 steps,
@@ -2056,6 +2095,10 @@ rrul_fill_Hly(echs_instant_t *restrict tgt, size_t nti, rrulsp_t rr)
 				continue;
 			} else if (UNLIKELY(echs_instant_lt_p(rr->until, x))) {
 				goto fin;
+			} else if (!pos_pick_p(&rr->pos, iM * e.nS + iS,
+						(size_t)e.nM * e.nS)) {
+				/* not one of the set positions */
+				continue;
 			}
 			tgt[res++] = x;
 		}
@@ -2185,6 +2228,11 @@ rrul_fill_Mly(echs_instant_t *restrict tgt, size_t nti, rrulsp_t rr)
 		goto fin;
 	}
 
+	if (UNLIKELY(!pos_pick_any_p(&rr->pos, e.nS))) {
+		/* none of the set positions exists in a minute's set */
+		goto fin;
+	}
+
 	/* the times of day that H:M + k * inter visits repeat after at most
 	 * 1440 steps, make sure the hour and minute masks allow one of them */
 	for (unsigned int k = 0U, tmp = H * 60U + M;
@@ -2296,6 +2344,9 @@ rrul_fill_Mly(echs_instant_t *restrict tgt, size_t nti, rrulsp_t rr)
 				continue;
 			} else if (UNLIKELY(echs_instant_lt_p(rr->until, x))) {
 				goto fin;
+			} else if (!pos_pick_p(&rr->pos, iS, e.nS)) {
+				/* not one of the set positions */
+				continue;
 			}
 			tgt[res++] = x;
 		}
@@ -2434,6 +2485,11 @@ rrul_fill_Sly(echs_instant_t *restrict tgt, size_t nti, rrulsp_t rr)
 		goto fin;
 	} else if (UNLIKELY(!rr->inter)) {
 		/* we'd never get anywhere */
+		goto fin;
+	}
+
+	if (UNLIKELY(!pos_pick_any_p(&rr->pos, 1U))) {
+		/* a second's set is just one instant, the first and last */
 		goto fin;
 	}
 
